@@ -2,6 +2,7 @@ SPECIFICATION Spec
 CONSTANTS
   MaxFiles = 1
   MaxMembers = 4
+  MaxPfx = 1
   WithCase = FALSE
 INVARIANT WalkAll
 INVARIANT WalkedLookupable
